@@ -44,7 +44,8 @@ def gen_protocol(rng, pnames: list[str]) -> list:  # noqa: ANN001
     vals = [dy(rng, 0.25, 2.5) for _ in range(3)]
     steps = []
     for _ in range(rng.randint(1, 6)):
-        steps.append((dy(rng, 0.125, 2.0), {p: (rng.choice(vals) if rng.random() < 0.4 else dy(rng, 0.25, 2.5)) for p in pp}))
+        # every step names the same parameters, each step in its own key order (the values belong to their names)
+        steps.append((dy(rng, 0.125, 2.0), {p: (rng.choice(vals) if rng.random() < 0.4 else dy(rng, 0.25, 2.5)) for p in rng.sample(pp, len(pp))}))
     return steps
 
 
